@@ -39,6 +39,7 @@ fn main() {
     let threads: usize = args.get(2).and_then(|s| s.parse().ok()).unwrap_or(4);
     let rounds: usize = args.get(3).and_then(|s| s.parse().ok()).unwrap_or(20);
     let text = std::fs::read_to_string(file).expect("cannot read cases");
+    host_function_phase(threads, rounds);
     for (n, line) in text.lines().enumerate() {
         let mut parts = line.splitn(2, '\t');
         let ctx_sx = parts.next().unwrap_or("");
@@ -124,6 +125,100 @@ fn main() {
         match verdict {
             None => println!("{n} ok"),
             Some(why) => println!("{n} differs {why}"),
+        }
+    }
+}
+
+/// Host functions are shared by every execution.  Two things a host may do inside one must stay
+/// local to the execution that does it: evaluate an argument lazily (`Expression` parameters
+/// resolved through the `FunctionContext`, so the same function can be entered again while it is
+/// running), and panic (the panic unwinds through `execute` into the host's own `catch_unwind`).
+/// Afterwards, and concurrently, every other execution yields what it yields alone.
+fn host_function_phase(threads: usize, rounds: usize) {
+    use cel_interpreter::FunctionContext;
+    use cel_parser::Expression;
+    let prev = std::panic::take_hook();
+    std::panic::set_hook(Box::new(|_| {}));
+    let (tx, rx) = std::sync::mpsc::channel::<Option<String>>();
+    std::thread::spawn(move || {
+        let mut root = Context::default();
+        root.add_function("orelse", |ftx: &FunctionContext, a: Expression, b: Expression| -> Result<Value, ExecutionError> {
+            match ftx.ptx.resolve(&a) {
+                Ok(Value::Null) | Err(_) => ftx.ptx.resolve(&b),
+                Ok(v) => Ok(v),
+            }
+        });
+        root.add_function("boom", |x: i64| -> i64 {
+            if x == 13 {
+                panic!("host function panics on 13");
+            }
+            x
+        });
+        root.add_variable_from_value("limit", Value::Int(5));
+        let table: Vec<(&str, Program, String)> = [
+            "orelse(orelse(missing, null), limit)",
+            "orelse(1, boom(13))",
+            "[1, 2].map(x, orelse(orelse(nope, x), 0))",
+            "orelse(orelse(orelse(null, null), orelse(1 / 0, 7)), 9)",
+            "boom(1) + boom(2)",
+            "[1, 2, 3].map(x, boom(x))",
+            "orelse(boom(4), 0) + limit",
+        ]
+        .iter()
+        .map(|s| {
+            let p = Program::compile(s).expect("host-function phase program");
+            (*s, p, String::new())
+        })
+        .collect();
+        let table: Vec<(&str, Program, String)> = table.into_iter().map(|(s, p, _)| { let e = result_to_sx(&p.execute(&root)).to_text(); (s, p, e) }).collect();
+        let want = ["(ok (int 5))", "(ok (int 1))", "(ok (list (int 1) (int 2)))", "(ok (int 7))", "(ok (int 3))", "(ok (list (int 1) (int 2) (int 3)))", "(ok (int 9))"];
+        let mut bad: Option<String> = None;
+        for (i, (s, _, e)) in table.iter().enumerate() {
+            if e != want[i] {
+                bad = Some(format!("`{s}` yields {e} instead of {}", want[i]));
+            }
+        }
+        let bomb = Program::compile("boom(13)").unwrap();
+        let bad = Mutex::new(bad);
+        let (root, table, bomb) = (&root, &table, &bomb);
+        std::thread::scope(|sc| {
+            for t in 0..threads.max(2) {
+                let bad = &bad;
+                sc.spawn(move || {
+                    let inner = root.new_inner_scope();
+                    for r in 0..rounds.min(40) {
+                        if (t + r) % 3 == 0 {
+                            // an execution whose host function panics: the panic reaches the host
+                            let r = std::panic::catch_unwind(std::panic::AssertUnwindSafe(|| bomb.execute(&inner)));
+                            if r.is_ok() {
+                                *bad.lock().unwrap() = Some("boom(13) returned although its host function panicked".into());
+                            }
+                        }
+                        for (s, p, e) in table.iter() {
+                            let got = match std::panic::catch_unwind(std::panic::AssertUnwindSafe(|| p.execute(&inner))) {
+                                Ok(x) => result_to_sx(&x).to_text(),
+                                Err(_) => "(panic)".to_string(),
+                            };
+                            if got != *e {
+                                *bad.lock().unwrap() = Some(format!("thread {t} round {r}: `{s}` yields {got} instead of {e} (after / beside executions whose host function panicked or re-entered itself)"));
+                            }
+                        }
+                    }
+                });
+            }
+        });
+        let _ = tx.send(bad.lock().unwrap_or_else(|e| e.into_inner()).clone());
+    });
+    let verdict = rx.recv_timeout(std::time::Duration::from_secs(90));
+    std::panic::set_hook(prev);
+    match verdict {
+        Ok(None) => println!("host-functions ok"),
+        Ok(Some(why)) => println!("host-functions differs {why}"),
+        Err(_) => {
+            println!("host-functions differs an execution calling a lazily resolving host function from inside itself (e.g. `orelse(orelse(missing, null), limit)`) or beside a panicking one did not return within 90 s (deadlock)");
+            use std::io::Write;
+            let _ = std::io::stdout().flush();
+            std::process::exit(1);
         }
     }
 }
